@@ -27,12 +27,18 @@ def main():
     bases = {n: c05.Base(n, t) for n, t in c05.HAND_BASES}
     bases["b6"] = c05.Base("b6", c05.returns_base(False))
     bases["b7"] = c05.Base("b7", c05.returns_base(True))
+    bases["b8"] = c05.Base("b8", c05.B8)
+    bases["b9"] = c05.Base("b9", c05.B9, tools=["virt-run", "virt-emit"])
+    for ib in c05.import_bases(c05.HAND_BASES):
+        bases[ib.name] = ib
     import shutil
     shutil.rmtree(os.path.join(OUT, "bases"), ignore_errors=True)
     shutil.rmtree(os.path.join(OUT, "cells"), ignore_errors=True)
     os.makedirs(os.path.join(OUT, "bases"), exist_ok=True)
     os.makedirs(os.path.join(OUT, "cells"), exist_ok=True)
     for n, b in bases.items():
+        if b.imp is not None:
+            continue            # import-context bases: written only when a finding needs them (see below)
         with open(os.path.join(OUT, "bases", n + ".nano"), "w") as f:
             f.write(b.render())
     found = {}      # key -> (count, total, example mutant record, obs index)
@@ -67,6 +73,12 @@ def main():
             wkey = (rule, context, m["base"], json.dumps(m["mut"]))
             if wkey not in written:
                 b = bases[m["base"]]
+                if b.imp is not None:       # multi-file base: keep all its files next to each other
+                    bd = os.path.join(OUT, "bases", m["base"].replace("+", "_"))
+                    os.makedirs(bd, exist_ok=True)
+                    for fn, text in b.files().items():
+                        with open(os.path.join(bd, fn), "w") as f:
+                            f.write(text)
                 mut = m["mut"]
                 mut = tuple(mut)
                 a = b.render().split("\n")
